@@ -2,6 +2,7 @@ package harness
 
 import (
 	"fmt"
+	"runtime"
 	"testing"
 	"time"
 
@@ -149,6 +150,56 @@ func TestGenC20(t *testing.T) {
 		q.stat("distinct_nontrivial", 1)
 		if static {
 			q.stat("static_histories", 1)
+		}
+	}
+	// Integration: the connection must tell its timeout manager the truth about retransmissions, on both roles.
+	// A real pair; one side sends a message whose first transmission is lost; the retransmission (1 s later, one
+	// boost: 1.5 s) is delivered and its ACK comes back 400 ms later. A retransmitted packet gives no sample, so the
+	// sender's resend timeout is exactly the boosted default.
+	lg := &evlog{o: newOut(t, "c20_integration_hist.txt")}
+	defer lg.o.close()
+	for _, sender := range []int{0, 1} {
+		for _, n := range []int{1, 5, 20} {
+			var got time.Duration
+			ok := false
+			pan := bubble(t, func(t *testing.T) {
+				lg.start = time.Now()
+				base := runtime.NumGoroutine()
+				s := newSim(t, lg, simCfg{id: fmt.Sprintf("i%d-%d", sender, n), n: uint8(n)})
+				if !s.cleanHandshake() {
+					s.finish(base)
+					return
+				}
+				s.recv(1 - sender)
+				s.send(sender, []byte("lost-once"))
+				if s.canOp(sender) {
+					s.op(sender, "drop")
+				}
+				s.advance(1100 * time.Millisecond) // the resend timer (1 s) fires
+				for k := 0; k < 5 && s.canOp(sender); k++ {
+					s.op(sender, "deliver")
+				}
+				s.advance(400 * time.Millisecond)
+				for k := 0; k < 5 && s.canOp(1-sender); k++ {
+					s.op(1-sender, "deliver")
+				}
+				s.advance(10 * time.Millisecond)
+				got = s.conn[sender].VerifResendTimeout()
+				ok = true
+				s.finish(base)
+			})
+			if pan != "" {
+				q.fail("c20:panic", "integration: "+truncate(pan, 300))
+				continue
+			}
+			q.stat("integration_cases", 1)
+			if !ok {
+				q.fail("c20:integration-setup", fmt.Sprintf("sender %d n %d: handshake failed", sender, n))
+				continue
+			}
+			q.check(got == 1500*time.Millisecond, fmt.Sprintf("c20:retransmission-not-reported-to-the-timeout-manager:sender=%d", sender), func() string {
+				return fmt.Sprintf("side %d (0 = client, 1 = server), n=%d: one lost DATA packet, retransmitted after 1 s, ACK 400 ms later: resend timeout %v, expected the boosted default 1.5s (a retransmitted packet gives no sample)", sender, n, got)
+			})
 		}
 	}
 	q.sample("history = random Sent/Received/Tick ops over kinds {syn,synack,data,ack,nack,fin}, seqs {0,1,2,3,254}, gaps {0,1ns,1ms,999ms,1s,1.5s,7s,250ms}; multipliers {1,3,5,2^40}; frequencies {1,2,3,100}; boost {0.5,0.1,2,0.25,3}")
